@@ -2221,7 +2221,6 @@ func canonPath(v ssa.Value) string {
 	return pathOf(v)
 }
 
-
 // structTableRows: the rows of local tables written as an array / slice literal of structs
 // ([...]struct{...}{{a, b}, {c, d}}): for each element, the value stored into each field (by field index).
 // The compiler builds a row either in place (&t[i].f = v) or in a temporary literal that is copied in.
